@@ -3,6 +3,7 @@ package c11
 import (
 	"fmt"
 	"math/big"
+	"strings"
 
 	"verifharness/internal/h"
 	"verifharness/props/c11/bnref"
@@ -361,10 +362,10 @@ func gen(tier string, rng *h.Rng, emit func(string)) {
 		gtBase, _ := suite.GT().Point().Base().MarshalBinary()
 		gtP, _ := suite.Pair(elem("g1", rng.Big(r)), elem("g2", rng.Big(r))).MarshalBinary()
 		type grp struct {
-			name     string
-			special  [][]byte
-			valid    [][]byte
-			bad      [][]byte
+			name    string
+			special [][]byte
+			valid   [][]byte
+			bad     [][]byte
 		}
 		g1P, g1Q := bnref.Enc1(randCurvePoint(rng)), bnref.Enc1(bnref.G1Gen())
 		g2P, g2Q := bnref.Enc2(bnref.Mul2(rng.Big(r), bnref.G2Gen())), bnref.Enc2(bnref.G2Gen())
@@ -410,6 +411,8 @@ func gen(tier string, rng *h.Rng, emit func(string)) {
 			}
 		}
 	}
+
+	genHistoriesC11(thorough, rng, emit)
 
 	// ---- 5. scalars -------------------------------------------------------------------------------
 	for _, v := range append(special, new(big.Int).Sub(two256, big.NewInt(2)), new(big.Int).Add(r, r)) {
@@ -535,4 +538,136 @@ func min(a, b int) int {
 		return a
 	}
 	return b
+}
+
+// cubeRootOfUnity: ω ≠ 1 with ω³ = 1 in F_p (p ≡ 1 mod 3): (ωx, y) is on the curve / twist whenever (x, y) is
+var omega = func() *big.Int {
+	e := new(big.Int).Div(new(big.Int).Sub(bnref.P, big.NewInt(1)), big.NewInt(3))
+	for g := int64(2); ; g++ {
+		if w := new(big.Int).Exp(big.NewInt(g), e, bnref.P); w.Cmp(big.NewInt(1)) != 0 {
+			return w
+		}
+	}
+}()
+
+// twistWithX: a point of the twist with the given x (either y), or false
+func twistWithX(x bnref.F2, negY bool) (bnref.P2, bool) {
+	rhs := bnref.F2Add(bnref.F2Mul(bnref.F2Mul(x, x), x), bnref.TwistB)
+	y, ok := bnref.F2Sqrt(rhs)
+	if !ok {
+		return bnref.P2{}, false
+	}
+	if negY {
+		y = bnref.F2Neg(y)
+	}
+	return bnref.P2{X: x, Y: y}, true
+}
+
+// genHistoriesC11: HISTORIES of calls in one process.
+//   - decode histories (seeded C11f-2: the G2 subgroup check skipped when the first 32 bytes of x were seen in an
+//     earlier successful decode): a valid decode first, then crafted RELATED encodings — same half-coordinate with
+//     the other half changed (on the twist, outside the subgroup), same x with the other y / a wrong y, same y with
+//     ωx, a shared prefix of 96 bytes — before and after the valid decode, into the same and into a fresh receiver,
+//     through UnmarshalBinary and UnmarshalFrom; every decode is judged alone by the math/big reference;
+//   - Equal histories (seeded C11f-1): identity operands after earlier comparisons of non-identity points.
+func genHistoriesC11(thorough bool, rng *h.Rng, emit func(string)) {
+	n2, n1 := 4, 4
+	if thorough {
+		n2, n1 = 30, 30
+	}
+	for i := 0; i < n2; i++ {
+		k := rng.Big(bnref.Rn)
+		if i == 0 {
+			k = big.NewInt(1) // the generator: the key every node has seen
+		}
+		P := bnref.Mul2(k, bnref.G2Gen())
+		E := bnref.Enc2(P)
+		var crafted [][]byte
+		// same x.im (bytes 1..32), other x.re: on the twist, outside the subgroup (about every second try has a root)
+		for c := 0; c < 2; {
+			if Q, ok := twistWithX(bnref.F2{Im: P.X.Im, Re: rng.Big(bnref.P)}, c == 1); ok {
+				crafted = append(crafted, bnref.Enc2(Q))
+				c++
+			}
+		}
+		// same x.re (bytes 33..64), other x.im
+		for c := 0; c < 1; {
+			if Q, ok := twistWithX(bnref.F2{Im: rng.Big(bnref.P), Re: P.X.Re}, false); ok {
+				crafted = append(crafted, bnref.Enc2(Q))
+				c++
+			}
+		}
+		// same x.im AND same y (bytes 65..128), other x.re: off the twist
+		crafted = append(crafted, cat(E[:33], be32(rng.Big(bnref.P)), E[65:]))
+		// same x: the other y (−P, valid), y+1 (off the twist), the halves of y swapped, 96 shared bytes
+		crafted = append(crafted, bnref.Enc2(bnref.Neg2(P)))
+		crafted = append(crafted, cat(E[:97], be32(bnref.Add(P.Y.Re, big.NewInt(1)))))
+		crafted = append(crafted, cat(E[:65], E[97:129], E[65:97]))
+		crafted = append(crafted, cat(E[:97], be32(rng.Big(bnref.P))))
+		// same y, ωx and ω²x: on the twist (an endomorphism of the subgroup: valid)
+		wx := bnref.F2{Im: bnref.Mul(P.X.Im, omega), Re: bnref.Mul(P.X.Re, omega)}
+		crafted = append(crafted, bnref.Enc2(bnref.P2{X: wx, Y: P.Y}))
+		// an outside-subgroup point PLUS P, and a random outside point (no relation): the controls
+		crafted = append(crafted, bnref.Enc2(bnref.Add2(randTwistPoint(rng), P)))
+		for j, Q := range crafted {
+			if !thorough && i > 0 && j >= 3 && (i+j)%3 != 0 {
+				continue
+			}
+			api := []string{"d", "f"}[(i+j)%2]
+			// before the valid decode, the valid decode, after it (same receiver), a fresh receiver, the other API, again
+			emit(fmt.Sprintf("seq g2 d%s,%s%s,d%s,r,d%s,f%s,d%s,d%s", h.Hex(Q), api, h.Hex(E), h.Hex(Q), h.Hex(Q), h.Hex(Q), h.Hex(E), h.Hex(Q)))
+		}
+		// all the crafted encodings one after the other behind ONE valid decode
+		var all []string
+		all = append(all, "d"+h.Hex(E))
+		for _, Q := range crafted[:4] {
+			all = append(all, "d"+h.Hex(Q))
+		}
+		emit("seq g2 " + strings.Join(all, ","))
+	}
+	for i := 0; i < n1; i++ {
+		k := rng.Big(bnref.Rn)
+		if i == 0 {
+			k = big.NewInt(1)
+		}
+		P := bnref.Mul1(k, bnref.G1Gen())
+		E := bnref.Enc1(P)
+		crafted := [][]byte{
+			bnref.Enc1(bnref.Neg1(P)),                         // same x, the other y: valid
+			cat(E[:32], be32(bnref.Add(P.Y, big.NewInt(1)))),  // same x, wrong y
+			cat(be32(bnref.Mul(P.X, omega)), E[32:]),          // ωx, same y: valid
+			cat(be32(bnref.Add(P.X, big.NewInt(1))), E[32:]),  // x+1, same y: off the curve
+			cat(E[:32], be32(rng.Big(bnref.P))),               // same x, random y
+			cat(E[:32], be32(new(big.Int).Add(P.Y, bnref.P))), // same x, y+p: not canonical
+		}
+		for j, Q := range crafted {
+			api := []string{"d", "f"}[(i+j)%2]
+			emit(fmt.Sprintf("seq g1 d%s,%s%s,d%s,r,d%s,f%s", h.Hex(Q), api, h.Hex(E), h.Hex(Q), h.Hex(Q), h.Hex(Q)))
+		}
+	}
+	// Equal histories: identity operands in every position after comparisons of non-identity points
+	ne := 6
+	if thorough {
+		ne = 40
+	}
+	for _, g := range []string{"g1", "g2"} {
+		for i := 0; i < ne; i++ {
+			a, b := rng.Big(bnref.Rn), rng.Big(bnref.Rn)
+			ab := new(big.Int).Add(a, b)
+			idents := []string{"o", fmt.Sprintf("k%s,k%s,-", a, a), "k0", fmt.Sprintf("k%s", bnref.Rn), fmt.Sprintf("k%s,m0", a), "o,c", "b,b,n,+"}
+			pick := func() string { return idents[rng.Intn(len(idents))] }
+			A, B, S := "k"+a.String(), "k"+b.String(), fmt.Sprintf("k%s,k%s,+", a, b)
+			hist := []string{
+				A + "=" + B, pick() + "=" + pick(), A + "=" + A, pick() + "=" + A, B + "=" + pick(),
+				S + "=k" + ab.String(), pick() + "=" + pick(), B + "=" + B, pick() + "=" + B, "o=" + pick(), A + "=" + pick(), pick() + "=o",
+			}
+			if i%2 == 1 { // a random order
+				for j := len(hist) - 1; j > 0; j-- {
+					k := rng.Intn(j + 1)
+					hist[j], hist[k] = hist[k], hist[j]
+				}
+			}
+			emit(fmt.Sprintf("eqh %s %s", g, strings.Join(hist, ";")))
+		}
+	}
 }
